@@ -31,7 +31,7 @@ def candidate_params(desc, pars):
 
 class CompileCase:
     def __init__(self, M, rng: random.Random, desc, pars, symtype, sym_keys=(), opts=None, ops=None,
-                 own_symbols=True, extra_params=None, prestep=None, fixed_from=None, fixed_prob=0.0, stacked=False, reuse=None, named_scalars_prob=0.0, scaled_prob=0.0, restep_T=None):
+                 own_symbols=True, extra_params=None, prestep=None, fixed_from=None, fixed_prob=0.0, stacked=False, reuse=None, named_scalars_prob=0.0, scaled_prob=0.0, restep_T=None, param_override=None):
         import casadi as cs
 
         NE, CE = drive.engines(M)
@@ -39,9 +39,10 @@ class CompileCase:
         self.opts = dict(opts or {})
         self.XX = getattr(cs, symtype)
         self.sym_keys = list(sym_keys)
+        self.shared_inner_mapping, self.shared_inner_mapping_written = None, []
         self.fixed = {}  # (element id, variable) -> number supplied instead of a symbol
         self.scaled = {}  # (element id, variable) -> (a, b): the step was given a + b * symbol
-        override = {}
+        override = dict(param_override or {})
         self.parameters = {}
         self.pvalues = {}
         linkd = {l["id"]: l for l in desc["links"]}
@@ -116,7 +117,15 @@ class CompileCase:
                 pass
         self.via = drive.pick_via(rng, 0.2)
         if own_symbols:
-            drive.do_step(self.built.net, self.via, rng=rng, engine=self.engine, **self.opts, **kw)
+            extra_ic = {}
+            if rng.random() < 0.3:
+                # one and the same (empty / partial) inner mapping handed to several elements - e.g.
+                # `dict.fromkeys(links, {})`: every element still gets variables of its own
+                shared = {}
+                extra_ic = {"init_conditions": {el_: shared for el_ in self.built.links.values()}}
+                self.shared_inner_mapping = shared
+            drive.do_step(self.built.net, self.via, rng=rng, engine=self.engine, **extra_ic, **self.opts, **kw)
+            self.shared_inner_mapping_written = sorted(map(str, self.shared_inner_mapping)) if extra_ic else []
         else:
             self.named_scalars = symtype == "SX" and rng.random() < named_scalars_prob
             ic, self.syms = drive.sym_init(M, self.built, symtype, shuffle_keys=(rng if rng.random() < 0.6 else None),
@@ -184,6 +193,9 @@ class CompileCase:
         arguments, as in the README (`to_function(net=net, parameters=..., T=T)`); only legal without
         flow outputs (with them the library itself refuses the duplicate keyword)."""
         other = {k: v for k, v in self.spars.items() if v is not None and (also_keywords or k not in self.parameters)}
+        for k_, v_ in drive.splat_all_constants({}).items():
+            if k_ not in self.parameters and k_ != "name":
+                other.setdefault(k_, v_)
         # the compactness level is documented by inequalities (<= 0, == 1, > 1): any integer of the class
         # asks for the same function
         level = compact
@@ -208,9 +220,9 @@ class CompileCase:
                                  fixed=set(self.fixed), scaled=(self.scaled or None))
 
 
-def numpy_twin_next(M, desc, vals, pars, opts=None, ops=None, scalar_shape="vec1", int_dtype=False):
+def numpy_twin_next(M, desc, vals, pars, opts=None, ops=None, scalar_shape="vec1", int_dtype=False, param_override=None):
     NE, CE = drive.engines(M)
-    built = D.build(M, desc, ops)
+    built = D.build(M, desc, ops, param_override=param_override)
     built.net.step(init_conditions=drive.np_init(built, vals, scalar_shape, int_dtype=int_dtype), engine=NE(),
                    **(opts or {}), **drive.step_pars(pars))
     return drive.read_next(built), built
